@@ -1245,16 +1245,36 @@ class Proxy(types.ModuleType):
     def isscalar(self, x):
         return isinstance(x, Sym) or np.isscalar(x)
 
+    @staticmethod
+    def _ulp(x):
+        """fresh symbolic magnitude of one unit in the last place of x: |x|*2**-53 <= ulp <= |x|*2**-52
+        (positive and tiny for x == 0)"""
+        c = sc.cur()
+        e = z3.FreshReal('ulp')
+        ax = If_(x.v < 0, -x.v, x.v)
+        c.assume(z3.And(e > 0, e >= ax * z3.RealVal('1/9007199254740992'),
+                        e <= ax * z3.RealVal('1/4503599627370496') + z3.RealVal('1/1000000000000000000000000000000')))
+        return e
+
     def spacing(self, x):
         if has_sym(x):
             stub_hit('S-spacing')
-            c = sc.cur()
-            e = z3.FreshReal('eps')
             x = sreal(x)
-            ax = If_(x.v < 0, -x.v, x.v)
-            c.assume(z3.And(e > 0, e <= ax * z3.RealVal('1/4503599627370496') + z3.RealVal('1/1000000000000000000000000000000')))
-            return SymReal(e, x.nan, FALSE)
+            e = self._ulp(x)
+            # numpy: spacing has the sign of x
+            return SymReal(If_(x.v < 0, -e, e), x.nan, FALSE)
         return np.spacing(x)
+
+    def nextafter(self, a, b):
+        if has_sym(a) or has_sym(b):
+            stub_hit('S-nextafter')
+            a, b = sreal(a), sreal(b)
+            e = self._ulp(a)
+            up = bool(b > a)
+            if not up and bool(b == a):
+                return a
+            return SymReal(a.v + e if up else a.v - e, Or_(a.nan, b.nan), FALSE)
+        return np.nextafter(a, b)
 
     def cos(self, x, *a, **kw):
         if active() and isinstance(x, (float, int, np.floating, np.integer)) and not a and not kw:
